@@ -297,6 +297,72 @@ def _():
     m = re.search(r"pub fn merge\(left: Exts, right: Exts\) -> Exts \{\s*Exts \{\s*val: left\.val & 0x([0-9a-fA-F]+) \| right\.val & 0x([0-9a-fA-F]+),", t)
     return "(%d,%d)" % (int(m.group(1), 16), int(m.group(2), 16)) if m else None
 
+# ---------------------------------------------------------------- bitops_avx2.rs
+def _set_epi8(text, var):
+    """byte-position-indexed list (32 entries) of a `let var = _mm256_set_epi8(...)` (arguments are listed from byte 31 down)"""
+    m = re.search(r"let %s = _mm256_set_epi8\((.*?)\);" % var, text, re.S)
+    if not m:
+        return None
+    body = re.sub(r"/\*.*?\*/", "", m.group(1), flags=re.S)
+    args = [a.strip() for a in body.split(",") if a.strip()]
+    if len(args) != 32:
+        return None
+    vals = []
+    for a in args:
+        mm = re.fullmatch(r"(\d+)i8 << (\d+)", a)
+        if mm:
+            vals.append((int(mm.group(1)) << int(mm.group(2))) & 0xFF)
+        elif re.fullmatch(r"\d+", a):
+            vals.append(int(a))
+        else:
+            return None
+    return list(reversed(vals))
+
+@item("avxReverseMask", "List Nat", _lean_list([15 - (i % 16) for i in range(32)]), "pack_32_bases: shuffle control reversing bytes within 128-bit lanes (indexed by byte position)")
+def _():
+    v = _set_epi8(src("bitops_avx2.rs"), "reverse_mask")
+    return None if v is None else _lean_list(v)
+
+@item("avxPermuteImm", "Nat", str(0b01110010), "pack_32_bases: immediate of _mm256_permute4x64_epi64")
+def _():
+    m = re.search(r"_mm256_permute4x64_epi64\(reversed, 0b([01_]+)\)", src("bitops_avx2.rs"))
+    return str(int(m.group(1).replace("_", ""), 2)) if m else None
+
+@item("avxShifts", "Nat × Nat", "(7,6)", "pack_32_bases: slli_epi16 counts for the first and second bit")
+def _():
+    t = src("bitops_avx2.rs")
+    a = re.search(r"let first_bits = _mm256_slli_epi16\(permuted, (\d+)\);", t)
+    b = re.search(r"let second_bits = _mm256_slli_epi16\(permuted, (\d+)\);", t)
+    return "(%s,%s)" % (a.group(1), b.group(1)) if a and b else None
+
+@item("avxHiLutChars", "List Nat", _lean_list([65, 67, 71, 84, 97, 99, 103, 116]), "convert_bases: characters whose bit is set in lut_hi")
+def _():
+    t = src("bitops_avx2.rs")
+    cs = re.findall(r"lut_hi \|= 1i64 << \(\(b'(.)' as i64\) - 64i64\);", t)
+    if not cs or not re.search(r"_mm256_set_epi64x\(lut_hi, 0i64, lut_hi, 0i64\)", t):
+        return None
+    return _lean_list([ord(c) for c in cs])
+
+@item("avxLoLut", "List Nat", _lean_list([1 << (i % 8) for i in range(32)]), "convert_bases: lo_lut (indexed by byte position)")
+def _():
+    v = _set_epi8(src("bitops_avx2.rs"), "lo_lut")
+    return None if v is None else _lean_list(v)
+
+@item("avxLoMask", "Nat", "15", "convert_bases: lo_mask byte")
+def _():
+    m = re.search(r"let lo_mask = _mm256_set1_epi8\(0b([01]+)\);", src("bitops_avx2.rs"))
+    return str(int(m.group(1), 2)) if m else None
+
+@item("avxLut", "List Nat", _lean_list([0, 0, 0, 1, 3, 0, 0, 2, 0, 0, 0, 0, 0, 0, 0, 0] * 2), "convert_bases: lut from the low 4 bits to the 2-bit code (indexed by byte position)")
+def _():
+    v = _set_epi8(src("bitops_avx2.rs"), "lut")
+    return None if v is None else _lean_list(v)
+
+@item("avxHiShift", "Nat", "3", "convert_bases: srli_epi16 count")
+def _():
+    m = re.search(r"let hi = _mm256_and_si256\(_mm256_srli_epi16\(input, (\d+)\), lo_mask\);", src("bitops_avx2.rs"))
+    return m.group(1) if m else None
+
 def generate():
     lines = ["/-! GENERATED by tools/extract_consts.py from /repo/src — do not edit. -/", "namespace Gen", ""]
     fallbacks = []
